@@ -10,7 +10,7 @@
 (* graph over N types and the shape menu, crossed with every site that     *)
 (* uses @T1; each is built by the real code in a crash-isolated worker.    *)
 (***************************************************************************)
-EXTENDS Naturals, Sequences, FiniteSets, TLC, Json
+EXTENDS Integers, Sequences, FiniteSets, TLC, Json
 
 CONSTANT N
 Types == 1..N
@@ -37,6 +37,23 @@ WalkBounded == Complete => Walk(g, {1}, {1}, 0) <= N
 RECURSIVE Reach(_, _, _)
 Reach(G, front, seen) == LET nx == UNION {Succ(G, t) : t \in front} \ seen IN IF nx = {} THEN seen ELSE Reach(G, nx, seen \cup nx)
 Cyclic == Complete /\ 1 \in Reach(g, {1}, {})
+
+(***************************************************************************)
+(* 'or' diamonds: 2n + 2 types, @a_i = @a_(i+1) | @b_(i+1), @b_i =         *)
+(* @b_(i+1) | @a_(i+1), two scalar leaves.  The number of PATHS from @a_0  *)
+(* doubles with every level; the walk with a visited set unfolds each type *)
+(* once.  A build whose time follows the paths is not "proportional to the *)
+(* input".  Depths are emitted as "D" lines; the harness measures them.    *)
+(***************************************************************************)
+DiamondDepths == {8, 12, 16, 20, 22}
+\* node 2i+1 = @a_i, node 2i+2 = @b_i (i = 0..n-1); nodes 2n+1, 2n+2 are the leaves
+DiamondG(n) == [t \in 1..(2 * n + 2) |->
+                 IF t > 2 * n THEN [k |-> "scalar"]
+                 ELSE LET i == (t - 1) \div 2 IN
+                      IF t % 2 = 1 THEN [k |-> "or", a |-> 2 * (i + 1) + 1, b |-> 2 * (i + 1) + 2]
+                      ELSE [k |-> "or", a |-> 2 * (i + 1) + 2, b |-> 2 * (i + 1) + 1]]
+ASSUME \A n \in DiamondDepths : Walk(DiamondG(n), {1}, {1}, 0) <= 2 * n + 2      \* linear in the number of types
+ASSUME \A n \in DiamondDepths : PrintT("D " \o ToJson([depth |-> n, types |-> 2 * n + 2]))
 
 EmitInv == Complete => PrintT("E " \o ToJson([g |-> g, site |-> site, cyclic |-> Cyclic]))
 =============================================================================
